@@ -5,7 +5,33 @@ import (
 	"sync"
 
 	"verif/harness/core"
+	"verif/harness/indep/codecs"
 )
+
+// specRec is a record for Trace_Codec (the format specification's opinion).
+type specRec struct {
+	Dir   string `json:"dir"`
+	Fmt   string `json:"fmt"`
+	Early int    `json:"early"`
+	Enc   []int  `json:"enc"`
+	Data  []int  `json:"data"`
+	Err   int    `json:"err"`
+}
+
+func ints(b []byte) []int {
+	v := make([]int, len(b))
+	for i, x := range b {
+		v[i] = int(x)
+	}
+	return v
+}
+
+func b2i(b bool) int {
+	if b {
+		return 1
+	}
+	return 0
+}
 
 func runModels(ctx *core.Ctx) error {
 	cfgs := []string{"MC_Envelope_q1.cfg", "MC_Envelope_q2.cfg"}
@@ -53,6 +79,9 @@ func run(ctx *core.Ctx) error {
 	cases = append(cases, bc...)
 	cases = append(cases, structureCases()...)
 	cases = append(cases, mutationCases(ctx)...)
+	lz := lzwStateCases(ctx)
+	lzFrom := len(cases)
+	cases = append(cases, lz...)
 	bombs := bombCases(ctx)
 	cases = append(cases, bombs...)
 	ctx.Logf("cases: %d parameter dictionaries, %d token sequences, %d other", len(dc), len(bc), len(cases)-len(dc)-len(bc))
@@ -61,9 +90,36 @@ func run(ctx *core.Ctx) error {
 	recs := make([]Rec, len(cases))
 	agree, disagree := 0, 0
 	byOutcome := map[string]int{}
+	hung := map[string]bool{}
+	lzwAgree, lzwDiffer := 0, 0
+	var specRecs []specRec
 	for i, c := range cases {
 		keep := i >= len(dc) && i < len(dc)+len(bc)
-		recs[i] = measure(c, keep)
+		isLZ := i >= lzFrom && i < lzFrom+len(lz)
+		if hung[c.Class] {
+			// a confirmed hang costs two watchdog periods and leaves a spinning
+			// goroutine behind: one per class is enough
+			recs[i] = Rec{Outcome: "data", RawLen: len(c.Body()), Class: c.Class, Note: "skipped after a hang in this class"}
+			continue
+		}
+		recs[i] = measure(c, keep || isLZ)
+		if recs[i].Outcome == "hang" {
+			hung[c.Class] = true
+		}
+		if isLZ { // where the format defines the output: the independent decoder (validated against Lzw.tla by C07)
+			early := int(c.Parms.D["EarlyChange"].I)
+			if want, err := codecs.LZWDecode(c.Body(), early); err == nil {
+				if recs[i].Outcome == "data" && eq(recs[i].out, want) {
+					lzwAgree++
+				} else {
+					lzwDiffer++
+				}
+				if len(specRecs) < ctx.Pick(24, 120) && (i*7)%5 == 0 {
+					specRecs = append(specRecs, specRec{Dir: "dec", Fmt: "lzw", Early: early, Enc: ints(c.Body()), Data: ints(recs[i].out), Err: b2i(recs[i].Outcome != "data")})
+				}
+			}
+			recs[i].out = nil
+		}
 		ctx.Ev.Eval(1)
 		byOutcome[recs[i].Outcome]++
 		if len(c.Body()) > 0 {
@@ -87,6 +143,19 @@ func run(ctx *core.Ctx) error {
 	ctx.Ev.Set("well_formed_token_sequences_decoded_as_specified", agree)
 	ctx.Ev.Set("well_formed_token_sequences_decoded_differently", disagree)
 	ctx.Ev.Set("parameter_clamp_disagreements", len(drift))
+	ctx.Ev.Set("lzw_state_cases", len(lz))
+	ctx.Ev.Set("lzw_state_cases_well_formed_decoded_as_specified", lzwAgree)
+	ctx.Ev.Set("lzw_state_cases_well_formed_decoded_differently", lzwDiffer)
+	// a sample of the well-formed ones is also put before Lzw.RefDecode in TLC
+	// (informational for C08: the envelope alone decides verdicts here)
+	if len(specRecs) > 0 {
+		badSpec, err := core.JudgeCases(ctx, core.TLCOpts{Dir: "filter", Module: "Trace_Codec", Cfg: "Trace_Codec.cfg", XssMB: 1024, Timeout: ctx.Dur(10, 30)}, specRecs, 8, 12)
+		if err != nil {
+			return err
+		}
+		ctx.Ev.Set("lzw_state_cases_judged_by_RefDecode", len(specRecs))
+		ctx.Ev.Set("lzw_state_cases_rejected_by_RefDecode", len(badSpec))
+	}
 
 	bad, err := judge(ctx, recs)
 	if err != nil {
